@@ -77,10 +77,25 @@ decreasing_by
   have : 0 < d.length := List.length_pos_iff.mpr hd
   simp only [List.length_drop]; omega
 
+/-- the chunks `_write_binary_chunks` writes: an empty payload is ONE chunk of size 0 (after the fix of
+    the vanishing empty binary tag, F17), otherwise `chunks 127` -/
+def binChunks (d : List Nat) : List (List Nat) :=
+  if d = [] then [[]] else chunks 127 (by decide) d
+
 /-! ### group code framing -/
 
-/-- group code bytes of `write_tag2` (non-binary tags) -/
+/-- group code bytes of `write_tag2` (non-binary tags).  R12: one byte for codes < 255, the marker 0xFF and a
+    2-byte code for every other code (after the fix of F7; before it the marker was written for codes
+    >= 1000 only, see `encCodeLegacy`) -/
 def encCode (r12 : Bool) (code : Nat) : Except PyErr (List Nat) :=
+  if r12 then
+    if code ≥ 255 then
+      if code < 65536 then .ok (255 :: leBytes 2 code) else .error .overflowError
+    else .ok [code]
+  else if code < 65536 then .ok (leBytes 2 code) else .error .overflowError
+
+/-- the group code bytes before the fix of F7 (kept to document the defect) -/
+def encCodeLegacy (r12 : Bool) (code : Nat) : Except PyErr (List Nat) :=
   if r12 then
     if code ≥ 1000 then
       if code < 65536 then .ok (255 :: leBytes 2 code) else .error .overflowError
@@ -121,10 +136,10 @@ structure BTag where
 def encTag (r12 : Bool) (t : BTag) : Except PyErr (List Nat) :=
   match writerCls t.code, t.val with
   | .binary, .bin data =>
-    -- _write_binary_chunks: marker only for R12 extended data, always 2-byte code
+    -- _write_binary_chunks: marker for R12 (codes >= 255, i.e. every binary data code), always 2-byte code
     if t.code < 65536 then
-      .ok ((chunks 127 (by decide) data).flatMap fun ch =>
-        (if r12 ∧ t.code ≥ 1000 then [255] else []) ++ leBytes 2 t.code ++ [ch.length] ++ ch)
+      .ok ((binChunks data).flatMap fun ch =>
+        (if r12 ∧ t.code ≥ 255 then [255] else []) ++ leBytes 2 t.code ++ [ch.length] ++ ch)
     else .error .overflowError
   | .bytes, .int v => do let c ← encCode r12 t.code; let b ← encByte v; .ok (c ++ b)
   | .int16, .int v => do let c ← encCode r12 t.code; let b ← encSigned 2 v; .ok (c ++ b)
@@ -176,6 +191,45 @@ def encAll (r12 : Bool) : List BTag → Except PyErr (List Nat)
     let a ← encTag r12 t
     let b ← encAll r12 r
     .ok (a ++ b)
+
+/-! ### `binary_tags_loader.scan_params`: which group-code width (and text encoding) the loader uses -/
+
+/-- position of the first occurrence of `pat` (`bytes.index` without bounds); `none` = ValueError -/
+def findSub (pat : List Nat) : List Nat → Option Nat
+  | [] => if pat.isEmpty then some 0 else none
+  | c :: r => if pat.isPrefixOf (c :: r) then some 0 else (findSub pat r).map (· + 1)
+
+def sigBytes : List Nat :=
+  [65, 117, 116, 111, 67, 65, 68, 32, 66, 105, 110, 97, 114, 121, 32, 68, 88, 70, 13, 10, 26, 0]
+def bACADVER : List Nat := [36, 65, 67, 65, 68, 86, 69, 82]
+def bAC1009 : List Nat := [65, 67, 49, 48, 48, 57]
+def bSECTION : List Nat := [83, 69, 67, 84, 73, 79, 78]
+def bHEADER : List Nat := [72, 69, 65, 68, 69, 82]
+
+/-- the DXF version `scan_params` finds: `data.index(b"$ACADVER", 22, 1024) + 10`, one more if that byte is
+    not 'A' (2-byte group code), then 6 bytes; "AC1009" when the variable is not found -/
+def scanVersion (data : List Nat) : List Nat :=
+  match findSub bACADVER ((data.take 1024).drop 22) with
+  | none => bAC1009
+  | some i =>
+    let start := i + 22 + 10
+    let start := if data.getD start 0 ≠ 65 then start + 1 else start
+    (data.drop start).take 6
+
+/-- lexicographic `a <= b` of byte/code point strings (Python str comparison) -/
+def strLe : List Nat → List Nat → Bool
+  | [], _ => true
+  | _ :: _, [] => false
+  | a :: r, b :: q => if a < b then true else if a = b then strLe r q else false
+
+/-- `r12 = dxfversion <= "AC1009"` as the LOADER decides it -/
+def loaderR12 (data : List Nat) : Bool := strLe (scanVersion data) bAC1009
+/-- `self._r12 = self.dxfversion <= "AC1009"` as the WRITER decides it -/
+def writerR12 (version : List Nat) : Bool := strLe version bAC1009
+
+/-- the first tags of every binary DXF file ezdxf writes: (0, SECTION) (2, HEADER) (9, $ACADVER) (1, version) -/
+def headTags (version : List Nat) : List BTag :=
+  [⟨0, .str bSECTION⟩, ⟨2, .str bHEADER⟩, ⟨9, .str bACADVER⟩, ⟨1, .str version⟩]
 
 /-! ### decimal text of integers (`"%3d" % code`, `"%s" % int`, `int(text)`) and hex text -/
 
